@@ -27,7 +27,9 @@ package tracer
 // identity) the header value in lower, UPPER, Title and mIXED case, in every
 // header that carries it (Connect-Content-Encoding, Grpc-Encoding,
 // Content-Encoding), on streams with a compressed and an uncompressed
-// end-stream message, in a reduced chunking (<= 2 pieces, all-1-byte); plus
+// end-stream message, in a reduced chunking (<= 2 pieces, all-1-byte; in the
+// quick tier only the mIXED spelling gets the two-piece compositions, the
+// others are delivered in one call and byte by byte); plus
 // every truncation of such streams for the encodings that part B of the main
 // enumeration does not use (br, deflate, snappy). The oracle is the unchanged
 // reference model, which treats coding names case-insensitively (RFC 9110 8.4.1).
@@ -529,8 +531,15 @@ func c14ShapeUnits(thorough bool) []c14Unit {
 	// spellings: the whole stream and the stream short of its last byte
 	for _, p := range protos {
 		for _, enc := range append([]string{"identity"}, c14SupportedEncodings...) {
-			for _, spelled := range c14Spellings(enc) {
+			for si, spelled := range c14Spellings(enc) {
 				h := c14Hdr{CT: p.ct, EncKey: p.encKey, Enc: spelled, Status: 200}
+				// quick tier: the spelling cannot interact with where a body is cut, so only the last (mIXED) spelling
+				// gets every two-piece composition; the others are delivered in one call and byte by byte
+				// (round 4: pays for stages M and P, which run in the same unit)
+				cuts := cuts
+				if !thorough && si != len(c14Spellings(enc))-1 {
+					cuts = 0
+				}
 				for _, bit := range []byte{1, 0} {
 					for _, lead := range []bool{false, true} {
 						s := stream(p, enc, bit, lead)
@@ -596,7 +605,7 @@ func c14ShapeStage(r *rep.Report, deadline time.Time) bool {
 		r.Count("stage-wall-ms:S-shape", time.Since(start).Milliseconds())
 		r.Count("stage-cpu-ms:S-shape", c14CPUMillis()-cpu)
 	}()
-	defer debug.SetGCPercent(debug.SetGCPercent(100))                                       // footprint only, see stage H
+	defer debug.SetGCPercent(debug.SetGCPercent(100)) // footprint only, see stage H
 	for k := range units {
 		if !r.Mine(int64(k)) {
 			continue
